@@ -10,7 +10,7 @@ from ..templates import T4_FLAGS, apply_T4, build_T4
 from ..tla import SPEC_DIR, jsonable, run_tlc
 from .c07 import cfg_text
 
-QUICK_FREE = ["s0", "s1", "s2", "s3", "l0", "w0", "b0", "b2"]
+QUICK_FREE = ["s0", "s1", "s3", "s5", "l0", "l3", "w1", "b2"]
 _NET = None
 
 
@@ -31,7 +31,8 @@ def observe(case):
     try:
         mg = top.create_nxgraph(net, **kw)
     except Exception as e:  # noqa  -- decided by C26_NoError in TLC
-        obs.update({"err": type(e).__name__, "nodes": [], "adj": [], "comps": [], "dist": [], "dist_err": True})
+        obs.update({"err": type(e).__name__, "nodes": [], "adj": [], "comps": [], "dist": [], "dist_err": True,
+                    "wdist": [], "wdist_err": True})
         return obs
     obs["nodes"] = sorted(int(n) for n in mg.nodes())
     adj = set()
@@ -50,6 +51,14 @@ def observe(case):
     except Exception:  # source bus not in the graph
         obs["dist"] = []
         obs["dist_err"] = True
+    try:
+        d = top.calc_distance_to_bus(net, 0, respect_switches=o["rs"], nogobuses=set(o["nogo"]) or None,
+                                     notravbuses=set(o["notrav"]) or None, weight="weight")
+        obs["wdist"] = sorted([int(b), int(round(float(x) * 1000))] for b, x in d.items())
+        obs["wdist_err"] = False
+    except Exception:  # source bus not in the graph
+        obs["wdist"] = []
+        obs["wdist_err"] = True
     return obs
 
 
@@ -73,7 +82,7 @@ def run(tier, seed, replay=None):
             with open(os.path.join(SPEC_DIR, "TopoC26.cfg")) as fh:
                 base = fh.read()
             with open(os.path.join(wd, "TopoC26.cfg"), "w") as fh:
-                fh.write(cfg_text(base, pin_true, []))
+                fh.write(cfg_text(base, pin_true, [], ball=2 if tier == "quick" else 3))
             r = run_tlc("TopoC26", "TopoC26.cfg", workdir=wd, dump=True, timeout=3000)
         finally:
             shutil.rmtree(wd, ignore_errors=True)
@@ -97,9 +106,9 @@ def run(tier, seed, replay=None):
         "states": states + st["states"], "transitions": trans + st["generated"],
         "traces_validated_against_impl": len(cases), "exhaustive": True, "evaluations": len(cases),
         "distinct_nontrivial": nontriv,
-        "rule": "every (configuration, option record) TLC enumerates for template T4 (pins true: %s) is replayed on "
+        "rule": "every (configuration within 2 [thorough: 3] flag flips of the base point, option record) of template T4 is replayed on "
                 "create_nxgraph / connected_components / calc_distance_to_bus; non-trivial = distinct (graph, options) "
-                "with non-default options, a non-empty graph and >=1 flag off" % pin_true,
+                "with non-default options, a non-empty graph and >=1 flag off",
         "model_states": states, "samples": [cases[k] for k in range(0, len(cases), max(1, len(cases) // 3))][:3],
     }
     v.assumptions = ["template T4; options rs/oos/include_*/nogobuses {1}/notravbuses {2}; MultiGraph, networkx library",
